@@ -53,7 +53,12 @@ META = dict(
          "backwards): one or two cron strings x 2-7 offsets (none / timedeltas / IANA zones, incl. the timedelta equal to "
          "a zone's shift) x 1-3 ticks (same UTC minute at increasing seconds in a random order of the schedules; then "
          "the next minute, the instant shifted by one of the offsets, +1 h / day / week), expression aimed at one "
-         "(tick, offset) pair, every element judged on its own",
+         "(tick, offset) pair, every element judged on its own; "
+         "35% of the random / all-zones cases and of the groups (one host per group) run on a HOST whose system time zone "
+         "is not the harness' UTC (POSIX TZ strings east/west with whole-hour / 30 / 45 / 20 / 1 minute offsets, with and "
+         "without DST; IANA names; some at the host zone's own transition), installed with time.tzset() in the driver, the "
+         "controlled clock answering now() without tz with the host's local wall clock; a quarter of them with the "
+         "expression pinned to the minute the HOST's clock shows; neither the oracle nor the model sees the host zone",
     trusted_base=["model: coq/theories/Cron.v (hand-written transcription of get_task_delay's cron branch and of pycron 3.3.0 "
                   "is_now/_parse_arg on the numeric grammar) and coq/theories/Civil.v (days-to-civil; checked against CPython "
                   "datetime fields on every case)",
@@ -272,17 +277,58 @@ def finish_case(r, c, e, mode):
     return c
 
 
+# The time zone of the HOST the scheduler runs on (TZ / /etc/localtime): an input the statement does not mention (the
+# expression is read on the UTC clock shifted by the schedule's own offset, whatever the machine's zone).  POSIX TZ
+# strings ((string, standard, DST offset) in minutes east of UTC; no zone database needed) and IANA names resolved by the
+# C library.  The offsets here only AIM expressions at the host's wall clock; the oracle and the model never see the host.
+HOSTS_POSIX = [("UTC0", 0, 0), ("MSK-3", 180, 180), ("EST5EDT", -300, -240), ("EST5", -300, -300), ("IST-5:30", 330, 330),
+               ("NPT-5:45", 345, 345), ("NZST-12NZDT", 720, 780), ("<+14>-14", 840, 840), ("<-12>12", -720, -720),
+               ("NST3:30NDT", -210, -150), ("AEST-10AEDT,M10.1.0,M4.1.0/3", 600, 660), ("CET-1CEST", 60, 120),
+               ("GMT0BST", 0, 60), ("PST8PDT", -480, -420), ("<+0020>-0:20", 20, 20), ("<-0001>0:01", -1, -1)]
+HOSTS_IANA = [z for z in ZONES if z != "UTC"] + ["Asia/Tokyo", "America/Los_Angeles", "Europe/London"]
+HOST_SHARE = .35
+
+
+def pick_host(r, now, may_move=True):
+    """(TZ string, kind, now, the host's UTC offset in us as far as the generator knows it)"""
+    k = r.random()
+    if k < .15 and may_move:   # an IANA host at one of ITS OWN transitions: its naive local clock repeats / skips an hour
+        z = r.choice(DST_ZONES)
+        T = r.choice(transitions_cached(z, r.choice([2019, 2024, 2026, 2027, 2031]))[:2])
+        now = T + (r.randrange(-2 * MIN, 2 * MIN) if r.random() < .5 else r.randrange(-2 * HOUR, 2 * HOUR))
+        return z, "iana-at-own-transition", now, shifted(now, {"kind": "zone", "zone": z})[1]
+    if k < .6:
+        h, a, b = r.choice(HOSTS_POSIX)
+        return h, "posix", now, r.choice([a, b]) * MIN
+    z = r.choice(HOSTS_IANA)
+    return (":" if r.random() < .1 else "") + z, "iana", now, shifted(now, {"kind": "zone", "zone": z})[1]
+
+
+def host_pin(now, hoff):
+    """the expression that names exactly the minute the HOST's local wall clock shows"""
+    return pin_expr(pyfields(EP + dt.timedelta(microseconds=now + hoff)))
+
+
 def gen_case(r):
     now = r.randrange(Y2015, Y2035)
     if r.random() < .35:
         now = now // MIN * MIN + r.choice(SECONDS)
     off = gen_off(r)
+    host = None
+    if r.random() < HOST_SHARE:
+        host = pick_host(r, now)
+        now = host[2]
     if off is not None and off["kind"] == "td" and r.random() < .3:
         # the SHIFTED clock within 2 us of a minute boundary (sub-minute offsets decide the minute)
         now = now // MIN * MIN - off["us"] % MIN + r.choice([-2, -1, 0, 1])
     loc, _ = shifted(now, off)
     e, mode = gen_expr(r, pyfields(loc))
-    return finish_case(r, dict(now=now, off=off), e, mode)
+    c = dict(now=now, off=off)
+    if host is not None:
+        c["host"], c["hostkind"] = host[0], host[1]
+        if r.random() < .25:   # due only for code that reads the machine's local clock
+            e, mode = host_pin(now, host[3]), "pin-host-clock"
+    return finish_case(r, c, e, mode)
 
 
 def transitions(zone, year, step_hours=1):
@@ -377,7 +423,13 @@ def gen_allzones(r, nzones, per_zone, around_transitions):
                 e, mode = pin_expr(pyfields(EP + dt.timedelta(microseconds=now))), "pin-utc-clock"
             else:
                 e, mode = gen_expr(r, pyfields(loc), "near")
-            cases.append(finish_case(r, dict(now=now, off=off), e, mode))
+            c = dict(now=now, off=off)
+            if r.random() < HOST_SHARE:
+                h = pick_host(r, now, may_move=False)
+                c["host"], c["hostkind"] = h[0], h[1]
+                if r.random() < .25:
+                    e, mode = host_pin(now, h[3]), "pin-host-clock"
+            cases.append(finish_case(r, c, e, mode))
     return cases
 
 
@@ -439,10 +491,15 @@ def gen_group(r):
         else:
             ticks.append(base + r.randrange(1, 3 * 1440) * MIN)
     ticks = sorted(set(ticks))
+    # the whole group runs on ONE host (a scheduler process has one system zone), in a third of the groups not UTC
+    host = pick_host(r, base, may_move=False) if r.random() < HOST_SHARE else None
     exprs = []
     for _ in range(r.choice([1, 1, 2])):
         aim = shifted(r.choice(ticks) + r.randrange(MIN), r.choice(offs))[0]
         mode = r.choices(["pin", "due", "near", "rand"], [.45, .3, .15, .1])[0]
+        if host is not None and r.random() < .25:
+            exprs.append((host_pin(r.choice(ticks), host[3]), "pin-host-clock"))
+            continue
         exprs.append((pin_expr(pyfields(aim)), mode) if mode == "pin" else gen_expr(r, pyfields(aim), mode))
     per_tick = max(2, GROUP_CAP // len(ticks))
     elems = []
@@ -454,7 +511,10 @@ def gen_group(r):
         if r.random() < .3:
             secs[0], secs[-1] = 0, MIN - 1
         for (e, m, o), s in zip(pairs, secs):
-            elems.append(finish_case(r, dict(now=t + s, off=o), e, "group:" + m))
+            c = dict(now=t + s, off=o)
+            if host is not None:
+                c["host"], c["hostkind"] = host[0], host[1]
+            elems.append(finish_case(r, c, e, "group:" + m))
     return dict(group=elems, mode="group")
 
 
@@ -606,6 +666,12 @@ def explore(ctx, rep, cases, label, judge=True):
         off = c["off"]
         rep.count("offset:" + ("none" if off is None else off["kind"]))
         rep.count("mode:" + c["mode"])
+        rep.count("host-zone:" + (c.get("hostkind") or "UTC (harness default)"))
+        if c.get("host"):
+            rep.count("host-zone-string:" + c["host"])
+            if "host_off_us" in o:
+                rep.count("host-offset:" + ("zero" if o["host_off_us"] == 0 else ("east" if o["host_off_us"] > 0 else "west") +
+                                            (" whole hours" if o["host_off_us"] % HOUR == 0 else " with minutes")))
         rep.count("via:" + ("CronSpec.to_cron" if c.get("spec") is not None else "string"))
         rep.count("second-of-minute:" + ("0" if c["now"] % MIN == 0 else "59.999999" if c["now"] % MIN == MIN - 1
                                          else "interior"))
@@ -719,6 +785,9 @@ def replay(ctx, path):
     o = C.run_driver(ctx, "cron_driver", [c], nproc=1)[0]
     print("case:", json.dumps(c))
     print("implementation:", o)
+    if c.get("host"):
+        print("host time zone of the scheduler process (TZ): %s; its naive local clock now() reads %s - the statement does "
+              "not depend on it" % (c["host"], o.get("local_now")))
     if "_crash" in o or "raised" in o:
         print("VIOLATED (raised)")
         return 1
@@ -756,8 +825,9 @@ def replay_group(ctx, g):
         pf = pyfields(loc)
         want = oracle_due(c["cron"], pf)
         ok = (x["delay"] == 0) == want and x["delay"] in (0, None) and x["cron"] == c["cron"]
-        print("[%d] now=%d (%s UTC) off=%s cron=%r: wall clock %s, expected %s, got %s: %s" % (
-            k, c["now"], (EP + dt.timedelta(microseconds=c["now"])).strftime("%Y-%m-%dT%H:%M:%S.%f"), json.dumps(c["off"]),
+        print("[%d] now=%d (%s UTC)%s off=%s cron=%r: wall clock %s, expected %s, got %s: %s" % (
+            k, c["now"], (EP + dt.timedelta(microseconds=c["now"])).strftime("%Y-%m-%dT%H:%M:%S.%f"),
+            "" if not c.get("host") else " host TZ=%s (local clock %s)" % (c["host"], x.get("local_now")), json.dumps(c["off"]),
             c["cron"], loc.isoformat(), "due (0)" if want else "not due (None)", x["delay"], "holds" if ok else "VIOLATED"))
         rc |= 0 if ok else 1
         if c.get("expr") is not None and not x.get("badtype"):
